@@ -143,6 +143,7 @@ type FuncSpec struct {
 	Pure     bool
 	Panics   bool // the callee may panic; callers get an exceptional edge
 	NoSafety bool // do not emit automatic safety obligations (trusted bodies)
+	CheckSafety bool // trusted contract of a module function whose body is nevertheless checked for panics (its ensures stay assumed)
 	NoSafetyKinds []string // safety kinds not checked in this function (documented in the contract)
 	UseLemmas []string // lemmas / global invariants assumed in this function's proof
 	Establishes []string // global invariants this (init) function proves on return
